@@ -1,6 +1,12 @@
 //! `libsodium_rs::crypto_generichash` — BLAKE2b, see the crate header. Same uninterpreted function as models/blake2:
 //!   keyed   : uf(BLAKE2B_MAC, ideal, key = key,  msg = streamed message, |out| = output_len)
 //!   unkeyed : uf(BLAKE2B,     ideal, key = [],   msg = streamed message, |out| = output_len)
+//!
+//! Representation: a `State` is a small handle (slot index, keyed flag, output length); key and streamed message live in a
+//! static arena. Reason: the repository moves states through `Result<(Key, State), _>`; CBMC loses the constant length fields of
+//! a large struct (with > 64-byte arrays inside) when it travels through an enum payload, and every later loop over the
+//! message would be unrolled to the global bound. The handle keeps all lengths constant-foldable.
+#![allow(static_mut_refs)]
 use crate::{Result, SodiumError};
 use vmodel_core::{alg, uf, Buf, KCAP, MCAP};
 
@@ -11,11 +17,23 @@ pub const KEYBYTES_MIN: usize = 16;
 pub const KEYBYTES_MAX: usize = 64;
 pub const KEYBYTES: usize = 32;
 
-/// Streaming BLAKE2b state: `update` concatenates, `finalize` evaluates the uninterpreted function once.
-pub struct State {
-    keyed: bool,
+/// states per harness
+pub const STATES: usize = 20;
+struct Slot {
     key: Buf<KCAP>,
     msg: Buf<MCAP>,
+}
+const EMPTY: Slot = Slot { key: Buf::new(), msg: Buf::new() };
+static mut ARENA: [Slot; STATES] = [EMPTY; STATES];
+static mut NEXT: usize = 0;
+
+/// Streaming BLAKE2b state: `update` concatenates, `finalize` evaluates the uninterpreted function once.
+/// NOTE: no field with a niche (bool, reference, NonNull, enum): rustc would store the discriminant of
+/// `Result<(Key, State), PasetoError>` in that niche, and CBMC does not constant-fold reads through a niche-encoded enum whose
+/// payload also holds symbolic bytes — every length behind it would become symbolic (measured: units/v4s/NOTES.md).
+pub struct State {
+    slot: usize,
+    keyed: usize, // 0 = unkeyed, 1 = keyed
     output_len: usize,
 }
 
@@ -25,30 +43,58 @@ impl State {
         if !(BYTES_MIN..=BYTES_MAX).contains(&output_len) {
             return Err(SodiumError::InvalidInput("generichash output length"));
         }
-        let mut k = Buf::new();
-        let mut keyed = false;
         if let Some(key) = key {
             if key.len() < KEYBYTES_MIN || key.len() > KEYBYTES_MAX {
                 return Err(SodiumError::InvalidInput("generichash key length"));
             }
-            k.push(key);
-            keyed = true;
         }
-        Ok(State { keyed, key: k, msg: Buf::new(), output_len })
+        unsafe {
+            let slot = NEXT;
+            assert!(slot < STATES, "[model] capacity: more generichash states than STATES");
+            NEXT = slot + 1;
+            ARENA[slot].key = Buf::new();
+            ARENA[slot].msg = Buf::new();
+            let mut keyed = 0;
+            if let Some(key) = key {
+                ARENA[slot].key.push(key);
+                keyed = 1;
+            }
+            Ok(State { slot, keyed, output_len })
+        }
     }
 
     pub fn update(&mut self, input: &[u8]) {
-        self.msg.push(input)
+        unsafe { ARENA[self.slot].msg.push(input) }
     }
 
     pub fn finalize(&mut self) -> Vec<u8> {
         let mut out = vec![0u8; self.output_len];
-        if self.keyed {
-            uf(alg::BLAKE2B_MAC, true, self.key.as_slice(), self.msg.as_slice(), &mut out);
-        } else {
-            uf(alg::BLAKE2B, true, &[], self.msg.as_slice(), &mut out);
+        unsafe {
+            let s = &ARENA[self.slot];
+            if self.keyed == 1 {
+                uf(alg::BLAKE2B_MAC, true, s.key.as_slice(), s.msg.as_slice(), &mut out);
+            } else {
+                uf(alg::BLAKE2B, true, &[], s.msg.as_slice(), &mut out);
+            }
         }
         out
+    }
+}
+
+/// Ghost accessors for contract harnesses (not part of the real API): what a state has been keyed with / fed so far.
+impl State {
+    pub fn model_key(&self) -> Option<&[u8]> {
+        if self.keyed == 1 {
+            Some(unsafe { ARENA[self.slot].key.as_slice() })
+        } else {
+            None
+        }
+    }
+    pub fn model_message(&self) -> &[u8] {
+        unsafe { ARENA[self.slot].msg.as_slice() }
+    }
+    pub fn model_output_len(&self) -> usize {
+        self.output_len
     }
 }
 
